@@ -7,6 +7,7 @@ package mqttproxy
 // the prefix mqx; the file defines no TestMain.
 
 import (
+	"bytes"
 	"errors"
 	"fmt"
 	"io"
@@ -569,6 +570,44 @@ func (c *mqxClient) Publish(topic string, qos byte, id uint16, payload string, d
 		return ok
 	}, d)
 	return got
+}
+
+// PublishBurst writes one PUBLISH per id and a PINGREQ in a single write and collects the PUBACK ids
+// that arrive before the PINGRESP.
+func (c *mqxClient) PublishBurst(topic string, qos byte, ids []uint16, payload string, d time.Duration) ([]int, bool) {
+	for {
+		select {
+		case <-c.acks:
+			continue
+		default:
+		}
+		break
+	}
+	var buf bytes.Buffer
+	for _, id := range ids {
+		pp := packets.NewControlPacket(packets.Publish).(*packets.PublishPacket)
+		pp.TopicName, pp.Qos, pp.MessageID, pp.Payload = topic, qos, id, []byte(payload)
+		pp.Write(&buf)
+	}
+	packets.NewControlPacket(packets.Pingreq).Write(&buf)
+	c.wmu.Lock()
+	c.conn.SetWriteDeadline(time.Now().Add(10 * time.Second))
+	_, err := c.conn.Write(buf.Bytes())
+	c.wmu.Unlock()
+	if err != nil {
+		return nil, false
+	}
+	var acks []int
+	ok := c.wait(func(p packets.ControlPacket) bool {
+		switch a := p.(type) {
+		case *packets.PubackPacket:
+			acks = append(acks, int(a.MessageID))
+		case *packets.PingrespPacket:
+			return true
+		}
+		return false
+	}, d)
+	return acks, ok
 }
 
 func (c *mqxClient) Disconnect() error { return c.write(packets.NewControlPacket(packets.Disconnect)) }
